@@ -5,6 +5,7 @@ scope is a *site*.  A site is discharged by one of D1..D6, by a reviewed table
 entry (tables/panic_table.json), or is listed in known_findings.json;
 otherwise it is a violation."""
 import json, os, re
+import slices
 from mirq import *
 from mirq import _is_ref_ty
 
@@ -421,6 +422,7 @@ class Discharger:
         self.crate = crate_name
         self.table = table   # tkey -> entry
         self.used_table = set()
+        self.stale = []
         self.known = set(known_keys)
 
     def run(self, fn, sites):
@@ -500,6 +502,14 @@ class Discharger:
         elif e is not None:
             self.used_table.add(s.tkey)
         if e is not None:
+            if e.get('slices') is not None:
+                # the review was of particular code: the entry is void once the site's backward slice changed
+                items = slices.site_items(fn, self.prog.crate(self.crate), s.term, s.bb)
+                dg, hs = slices.digest(items)
+                if dg not in e['slices']:
+                    new = slices.new_items(items, e.get('slice_items'))
+                    self.stale.append((s, e, new))
+                    return (None, 'STALE reviewed entry (%s): the code computing or guarding this site changed since review; new slice items: %s' % (e.get('why', '')[:80], ' ;; '.join(x[:160] for x in new[:4]) or '(items removed)'))
             return ('T', e.get('why', ''))
         return (None, '')
 
@@ -548,7 +558,7 @@ class Discharger:
 
     def _const(self, fn, tree):
         t = resolve_items(self.prog, self.crate, fn.expand(tree))
-        t = strip_casts_all(t)
+        t = _fold_ints(strip_casts_all(t))
         if t[0] == 'int':
             return t[1]
         return None
@@ -624,6 +634,28 @@ class Discharger:
                             if cb is not None and cs is not None and cs >= cb and same_tree(fn, rel[1], a):
                                 if not writes_between(fn, g, sc, s.bb, [a]):
                                     return ('D3', 'dominated by %s < %s - %s, addend %s' % (show(rel[1]), lim, cs, cb))
+        if op == 'Add' and tr[0] == 0:
+            # a + c under the success of `a.checked_add(c2)?` / `if let Some(..) = a.checked_add(c2)` with c2 >= c
+            cb = self._const(fn, b)
+            if cb is not None and cb >= 0:
+                for rel, g, sc in facts:
+                    if rel[0] != 'switch' or len(rel) < 3:
+                        continue
+                    d = rel[1]
+                    if not (isinstance(d, tuple) and d[0] == 'discr'):
+                        continue
+                    inner = d[1]
+                    want = None
+                    if inner[0] == 'trybranch':
+                        inner, want = inner[1], 0          # ControlFlow::Continue
+                    elif is_call(inner, 'checked_add'):
+                        want = 1                           # Option::Some
+                    if want is None or rel[2] != want or not is_call(inner, 'checked_add') or len(inner) != 4:
+                        continue
+                    c2 = self._const(fn, inner[3])
+                    if c2 is not None and c2 >= cb and same_tree(fn, inner[2], a):
+                        if not writes_between(fn, g, sc, s.bb, [a]):
+                            return ('D3', 'dominated by the success of checked_add(%s, %d), addend %d' % (show(inner[2])[:60], c2, cb))
         return None
 
     def _counter_local(self, fn, o):
@@ -710,6 +742,16 @@ def strip_casts_all(tree):
     return tree
 
 
+def _fold_ints(t):
+    """constant-fold + - * over integer literals (mathematical integers: callers compare against type ranges)"""
+    if not isinstance(t, tuple) or not t or t[0] != 'bin' or t[1] not in ('Add', 'Sub', 'Mul'):
+        return t
+    a, b = _fold_ints(strip_casts_all(t[2])), _fold_ints(strip_casts_all(t[3]))
+    if a[0] == 'int' and b[0] == 'int':
+        return ('int', a[1] + b[1] if t[1] == 'Add' else a[1] - b[1] if t[1] == 'Sub' else a[1] * b[1])
+    return t
+
+
 def resolve_items(prog, crate_name, tree):
     if not isinstance(tree, tuple) or not tree:
         return tree
@@ -717,6 +759,11 @@ def resolve_items(prog, crate_name, tree):
         v = prog.const_int(tree[1], crate_name)
         if v is not None:
             return ('int', v)
+        m = re.match(r'^(?:core|std)::(?:num::<impl )?([iu](?:8|16|32|64|128|size))>?::(MAX|MIN)$', tree[1])
+        if m:
+            r = ty_range(m.group(1))
+            if r is not None:
+                return ('int', r[1] if m.group(2) == 'MAX' else r[0])
         return tree
     if tree[0] in ('int', 'str', 'fnref', 'float', 'const', 'arg', 'var'):
         return tree
